@@ -52,6 +52,8 @@ type Converter struct {
 	// outputPackagePreset is set while the output package of a variables
 	// block still is the one preset for its default output file.
 	outputPackagePreset bool
+	// nameSet is set once goverter:name was written.
+	nameSet bool
 }
 
 func (c *Converter) typeForMethod() types.Type {
@@ -191,6 +193,7 @@ func parseConverterLine(ctx *context, c *Converter, value string) (err error) {
 			return err
 		}
 		c.Name, err = parse.String(rest)
+		c.nameSet = true
 	case "output:raw":
 		c.OutputRaw = append(c.OutputRaw, rest)
 	case configOutputFile:
@@ -218,6 +221,10 @@ func parseConverterLine(ctx *context, c *Converter, value string) (err error) {
 		}
 		if c.typ != nil && c.OutputFormat == FormatVariable {
 			return fmt.Errorf("unsupported format for goverter:converter")
+		}
+		if c.OutputFormat != FormatStruct && (c.nameSet || len(c.Comments) > 0) {
+			// the same settings written below this line are rejected as well
+			return fmt.Errorf("goverter:name and goverter:struct:comment are only allowed with output:format struct")
 		}
 	case "output:package":
 		c.outputPackagePreset = false
